@@ -307,6 +307,17 @@ func FactsAt(info *types.Info, body *ast.BlockStmt, target ast.Node) *Facts {
 				c.seq(p.Body, child)
 				// tagless switch: a single case expression is a condition
 				if sw := enclosingSwitch(path[:i+1]); sw != nil {
+					if sw.Tag == nil {
+						// the cases this clause fell past are false here
+						for _, cl := range sw.Body.List {
+							if cl == ast.Stmt(p) {
+								break
+							}
+							for _, ce := range cl.(*ast.CaseClause).List {
+								c.assume(ce, false, p.Pos())
+							}
+						}
+					}
 					if sw.Tag == nil && len(p.List) == 1 {
 						c.assume(p.List[0], true, p.Pos())
 					} else if sw.Tag != nil && len(p.List) == 1 {
@@ -410,6 +421,17 @@ func (c *factCtx) seq(list []ast.Stmt, child ast.Node) {
 				c.assume(x.Cond, true, x.End())
 			}
 		case *ast.SwitchStmt:
+			// a tagless switch whose clause leaves the function: its condition is false afterwards
+			if x.Tag == nil {
+				for _, cl := range x.Body.List {
+					cc := cl.(*ast.CaseClause)
+					if cc.List != nil && terminates(c.info, cc.Body) {
+						for _, ce := range cc.List {
+							c.assume(ce, false, cc.Pos())
+						}
+					}
+				}
+			}
 			// switch len(x) { case 0: return ...; }  → after it len(x) != 0
 			if x.Tag != nil {
 				if le, ok := lenArg(c.info, x.Tag); ok {
